@@ -376,9 +376,18 @@ Section Forall2b.
     end.
 End Forall2b.
 
+(* a struct slot: a pointer slot is nil or points to a typed value, a plain slot holds a typed
+   value (nil for binary and containers); VAny is accepted (idl_rules) *)
+Definition slot_ok (ht : ty -> cval -> bool) (fd : field) (sl : cval) : bool :=
+  match sl with
+  | VNil => need_redirect fd || negb (is_base_or_enum (fd_cat fd)) || is_binary (fd_cat fd)
+  | VSome (VSome VNil) => true
+  | VSome x => need_redirect fd && is_base_or_enum (fd_cat fd) && ht (fd_type fd) x
+  | x => negb (need_redirect fd && is_base_or_enum (fd_cat fd)) && ht (fd_type fd) x
+  end.
+
 (* [has_type fuel p tf t v]: v is a Go value of the plain representation of type t (written in
-   file tf).  Struct slots: a pointer slot is nil or points to a typed value; VAny is accepted
-   in a slot (idl_rules).  Fuel bounds the nesting of struct values. *)
+   file tf).  Fuel bounds the nesting of values. *)
 Fixpoint has_type (fuel : nat) (p : program) (tf : file) (t : ty) (v : cval) {struct fuel} : bool :=
   match fuel with
   | O => false
@@ -387,7 +396,7 @@ Fixpoint has_type (fuel : nat) (p : program) (tf : file) (t : ty) (v : cval) {st
     match cat with
     | CatBool => match v with VBool _ => true | _ => false end
     | CatByte | CatI16 | CatI32 | CatI64 => match v with VInt z => in_int_range cat z | _ => false end
-    | CatDouble => match v with VDbl b => (0 <=? b) && (b <? 2 * two63) | _ => false end
+    | CatDouble => match v with VDbl _ => true | _ => false end
     | CatString => match v with VStr _ => true | _ => false end
     | CatBinary => match v with VBin _ => true | _ => false end
     | CatEnum => match v with VInt _ => true | _ => false end
@@ -415,15 +424,7 @@ Fixpoint has_type (fuel : nat) (p : program) (tf : file) (t : ty) (v : cval) {st
       match v with
       | VStruct fs =>
         match get_struct_like p tf t with
-        | Ok (g, s) =>
-          forall2b (fun fd e =>
-                      (fst e =? fd_id fd) &&
-                      match snd e with
-                      | VNil => need_redirect fd || negb (is_base_or_enum (fd_cat fd)) || is_binary (fd_cat fd)
-                      | VSome (VSome VNil) => true
-                      | VSome x => need_redirect fd && is_base_or_enum (fd_cat fd) && has_type k p g (fd_type fd) x
-                      | x => negb (need_redirect fd && is_base_or_enum (fd_cat fd)) && has_type k p g (fd_type fd) x
-                      end) (sl_fields s) fs
+        | Ok (g, s) => forall2b (fun fd e => (fst e =? fd_id fd) && slot_ok (has_type k p g) fd (snd e)) (sl_fields s) fs
         | Error _ => false
         end
       | _ => false
